@@ -47,30 +47,33 @@ Decl ==
                   [name |-> "o2", type |-> "T2"], [name |-> "o11", type |-> "T11"],
                   [name |-> "oU", type |-> "U"] >>,
    fluents |-> <<
-      [name |-> "iu",  type |-> TI(NONE, NONE)],
-      [name |-> "il",  type |-> TI(Z(0 - 1), NONE)],
-      [name |-> "ilp", type |-> TI(Z(2), NONE)],
-      [name |-> "ih",  type |-> TI(NONE, Z(3))],
-      [name |-> "ihn", type |-> TI(NONE, Z(0 - 1))],
-      [name |-> "ib",  type |-> TI(Z(0 - 2), Z(3))],
-      [name |-> "ibp", type |-> TI(Z(1), Z(3))],
-      [name |-> "ibn", type |-> TI(Z(0 - 3), Z(0 - 1))],
-      [name |-> "iz",  type |-> TI(Z(0), Z(1))],
-      [name |-> "ru",  type |-> TR(NONE, NONE)],
-      [name |-> "rl",  type |-> TR(NV(0 - 1, 2), NONE)],
-      [name |-> "rlp", type |-> TR(NV(1, 3), NONE)],
-      [name |-> "rh",  type |-> TR(NONE, NV(2, 3))],
-      [name |-> "rhn", type |-> TR(NONE, NV(0 - 1, 3))],
-      [name |-> "rb",  type |-> TR(NV(0 - 1, 2), NV(2, 3))],
-      [name |-> "rbp", type |-> TR(NV(1, 3), NV(3, 2))],
-      [name |-> "rbn", type |-> TR(NV(0 - 3, 2), NV(0 - 1, 3))],
-      [name |-> "b",   type |-> TBool],
-      [name |-> "c",   type |-> TBool],
-      [name |-> "fT",  type |-> TUser("T")],
-      [name |-> "f1",  type |-> TUser("T1")],
-      [name |-> "f2",  type |-> TUser("T2")],
-      [name |-> "f11", type |-> TUser("T11")],
-      [name |-> "fU",  type |-> TUser("U")] >>,
+      [name |-> "iu",  type |-> TI(NONE, NONE), sig |-> <<>>],
+      [name |-> "il",  type |-> TI(Z(0 - 1), NONE), sig |-> <<>>],
+      [name |-> "ilp", type |-> TI(Z(2), NONE), sig |-> <<>>],
+      [name |-> "ih",  type |-> TI(NONE, Z(3)), sig |-> <<>>],
+      [name |-> "ihn", type |-> TI(NONE, Z(0 - 1)), sig |-> <<>>],
+      [name |-> "ib",  type |-> TI(Z(0 - 2), Z(3)), sig |-> <<>>],
+      [name |-> "ibp", type |-> TI(Z(1), Z(3)), sig |-> <<>>],
+      [name |-> "ibn", type |-> TI(Z(0 - 3), Z(0 - 1)), sig |-> <<>>],
+      [name |-> "iz",  type |-> TI(Z(0), Z(1)), sig |-> <<>>],
+      [name |-> "ru",  type |-> TR(NONE, NONE), sig |-> <<>>],
+      [name |-> "rl",  type |-> TR(NV(0 - 1, 2), NONE), sig |-> <<>>],
+      [name |-> "rlp", type |-> TR(NV(1, 3), NONE), sig |-> <<>>],
+      [name |-> "rh",  type |-> TR(NONE, NV(2, 3)), sig |-> <<>>],
+      [name |-> "rhn", type |-> TR(NONE, NV(0 - 1, 3)), sig |-> <<>>],
+      [name |-> "rb",  type |-> TR(NV(0 - 1, 2), NV(2, 3)), sig |-> <<>>],
+      [name |-> "rbp", type |-> TR(NV(1, 3), NV(3, 2)), sig |-> <<>>],
+      [name |-> "rbn", type |-> TR(NV(0 - 3, 2), NV(0 - 1, 3)), sig |-> <<>>],
+      [name |-> "b",   type |-> TBool, sig |-> <<>>],
+      [name |-> "c",   type |-> TBool, sig |-> <<>>],
+      [name |-> "fT",  type |-> TUser("T"), sig |-> <<>>],
+      [name |-> "f1",  type |-> TUser("T1"), sig |-> <<>>],
+      [name |-> "f2",  type |-> TUser("T2"), sig |-> <<>>],
+      [name |-> "f11", type |-> TUser("T11"), sig |-> <<>>],
+      [name |-> "fU",  type |-> TUser("U"), sig |-> <<>>],
+      \* fluents with a parameter: a sub-type object / an overlapping integer is a well-formed argument
+      [name |-> "gT",  type |-> TUser("T2"), sig |-> << [name |-> "p", type |-> TUser("T")] >>],
+      [name |-> "hI",  type |-> TBool, sig |-> << [name |-> "p", type |-> TI(Z(0), Z(5))] >>] >>,
    params  |-> << [name |-> "pT", type |-> TUser("T")], [name |-> "pU", type |-> TUser("U")],
                   [name |-> "pi", type |-> TI(Z(0), Z(5))], [name |-> "pb", type |-> TBool] >>]
 
